@@ -1,4 +1,44 @@
 From Coq Require Import ZArith List.
-From PV Require Import Base.U64 C19.C19_Model C19.C19_Proofs.
-Theorem c19_placeholder : True. Proof. exact placeholder. Qed.
-Print Assumptions c19_placeholder.
+From PV Require Import Base.U64 C19.C19_Model C19.C19_Lib C19.C19_Inv C19.C19_Proofs.
+Theorem oc_invariant : forall now life lim progs s, reachable (init_state now life lim progs) s -> Inv s.
+Proof. exact reachable_inv. Qed.
+Print Assumptions oc_invariant.
+Theorem oc_coop_run_is_a_run : forall s0 fuel s rq, reachable s0 s -> reachable s0 (fst (fst (coop_run fuel s rq))).
+Proof. exact coop_run_reachable. Qed.
+Print Assumptions oc_coop_run_is_a_run.
+Theorem oc_no_use_after_free : forall now life lim progs s, reachable (init_state now life lim progs) s -> s_bad s = false.
+Proof. exact no_use_after_free. Qed.
+Print Assumptions oc_no_use_after_free.
+Theorem oc_refcount_exact : forall now life lim progs s i it, reachable (init_state now life lim progs) s ->
+  nth_error (s_items s) i = Some it -> i_ref it = Z.of_nat (total_holds s i).
+Proof. exact refcount_exact. Qed.
+Print Assumptions oc_refcount_exact.
+Theorem oc_one_object_per_key : forall now life lim progs s t1 t2 i1 i2 it1 it2,
+  reachable (init_state now life lim progs) s -> holder s t1 i1 -> holder s t2 i2 ->
+  nth_error (s_items s) i1 = Some it1 -> nth_error (s_items s) i2 = Some it2 -> i_key it1 = i_key it2 -> i1 = i2.
+Proof. exact one_object_per_key. Qed.
+Print Assumptions oc_one_object_per_key.
+Theorem oc_no_destroy_while_borrowed : forall now life lim progs s t i,
+  reachable (init_state now life lim progs) s -> holder s t i ->
+  (exists it, nth_error (s_items s) i = Some it /\ i_live it = true /\ (0 < i_ref it)%Z) /\
+  In i (s_set s) /\ ~ In i (s_list s) /\
+  (forall t' th', nth_error (s_thr s) t' = Some th' -> pc_owns (t_pc th') i = O).
+Proof. exact no_destroy_while_borrowed. Qed.
+Print Assumptions oc_no_destroy_while_borrowed.
+Theorem oc_expire_only_unreferenced : forall now life lim progs s t th zs kt z,
+  reachable (init_state now life lim progs) s -> nth_error (s_thr s) t = Some th ->
+  t_pc th = PExpDel zs kt -> In z zs ->
+  total_holds s z = O /\ exists it, nth_error (s_items s) z = Some it /\ i_live it = true /\ i_ref it = 0%Z /\ ~ In z (s_set s).
+Proof. exact expire_only_unreferenced. Qed.
+Print Assumptions oc_expire_only_unreferenced.
+Theorem oc_recycle_waits_all : forall now life lim progs s t th i ds,
+  reachable (init_state now life lim progs) s -> nth_error (s_thr s) t = Some th ->
+  (t_pc th = PRelErase i ds \/ t_pc th = PRelDelete i ds) -> total_holds s i = O.
+Proof. exact recycle_waits_all. Qed.
+Print Assumptions oc_recycle_waits_all.
+Theorem oc_recycler_unique : forall now life lim progs s t1 t2 th1 th2 i,
+  reachable (init_state now life lim progs) s ->
+  nth_error (s_thr s) t1 = Some th1 -> nth_error (s_thr s) t2 = Some th2 ->
+  pc_recycler (t_pc th1) i = true -> pc_recycler (t_pc th2) i = true -> t1 = t2.
+Proof. exact recycler_unique. Qed.
+Print Assumptions oc_recycler_unique.
